@@ -25,3 +25,18 @@ func VerifLayerPartsC15(l Layer) (*reader.VerifiableReader, reader.Reader, remot
 	}
 	return lr.layer.verifiableReader, lr.layer.r, lr.layer.blob.Blob
 }
+
+// VerifWaiterClosedC15 reports, without waiting and without side effect, whether the prefetch waiter of a layer has
+// been released (prefetch over, gone async, or a wait timed out).
+func VerifWaiterClosedC15(l Layer) bool {
+	lr, ok := l.(*layerRef)
+	if !ok {
+		return false
+	}
+	select {
+	case <-lr.layer.prefetchWaiter.doneCh:
+		return true
+	default:
+		return false
+	}
+}
